@@ -44,6 +44,7 @@ for _v in ("OMP_NUM_THREADS", "OPENBLAS_NUM_THREADS", "MKL_NUM_THREADS", "NUMEXP
     os.environ.setdefault(_v, "1")
 
 import numpy as np  # noqa: E402
+from fractions import Fraction  # noqa: E402
 
 from . import core
 
@@ -234,6 +235,20 @@ def make_matrix(kind, n, seed):
         for _ in range(int(rs.randint(1, 4))):
             a, b = sorted(rs.choice(n, 2, replace=False))
             t = 10 ** rs.uniform(-9, -6.4)
+            ph = np.exp(1j * rs.uniform(0, 2 * math.pi))
+            e = np.eye(n, dtype=complex)
+            e[a, a] = e[b, b] = math.cos(t)
+            e[a, b] = -math.sin(t) * np.conj(ph)
+            e[b, a] = math.sin(t) * ph
+            u = (e @ u) if rs.rand() < 0.5 else (u @ e)
+        return u
+    if kind == "dust7":      # entries between 2e-7 and 8e-7: negligible for the default precision 1e-6, NOT negligible
+        # for a requested precision of 1e-7 (the request's own precision must be the one the thresholds use)
+        base = ["identity", "diag", "blockdiag", "sparse", "permphase"][rs.randint(0, 5)]
+        u = make_matrix(base, n, seed + 9)
+        for _ in range(int(rs.randint(1, 3))):
+            a, b = sorted(rs.choice(n, 2, replace=False))
+            t = 10 ** rs.uniform(-6.7, -6.1)
             ph = np.exp(1j * rs.uniform(0, 2 * math.pi))
             e = np.eye(n, dtype=complex)
             e[a, a] = e[b, b] = math.cos(t)
@@ -442,10 +457,17 @@ def numpy_product(flat, m):
 
 
 def tol_of(spec):
-    """`precision · c`: every cell leaves a residue ≤ precision that is overwritten by 0; blocks are unitary, so
-    the accumulated error is ≤ (#cells)·precision in operator norm, and the lower-triangular residue of the final
-    u is of the same order.  c = 4·(#cells + 1)."""
-    return spec.get("precision", 1e-6) * 4 * (ncells(spec["n"]) + 1)
+    """The bound of `decomposition_error_bound_precision` (Props/C12.lean, a theorem): every overwritten entry has
+    modulus <= precision (threshold test / acceptance test of solve) and the blocks are unitary, so, with
+    N = n(n-1)/2 cells and d = N·precision,  ||U - circuit||_F <= (sqrt(n-1) + 2)·d + n·d²  (Frobenius norm, hence
+    every entry; the same bound up to a unit diagonal without the phase layer:
+    `decomposition_error_bound_no_phase_layer`; the Frobenius norm is invariant under np.flip and, for unitary
+    matrices, under inversion, so it also covers inverse_v / inverse_h).  1e-9 is the floating-point slack of the
+    comparison itself.  (It replaces the measured `precision·4(#cells+1)` of the earlier rounds and is smaller than
+    it for every n <= 6.)"""
+    n = spec["n"]
+    d = ncells(n) * spec.get("precision", 1e-6)
+    return (math.sqrt(max(n - 1, 0)) + 2) * d + n * d * d + 1e-9
 
 
 def direct_oracle(spec, U, M):
@@ -593,6 +615,409 @@ def hit(chk, obs, name):
     chk.branch(name)
     if not obs.get("from_corpus"):
         chk.branch(name + "/generated")
+
+
+# ------------------------------------------------------------------------------------------------
+# the existence clause: closed-form parameters (transcription of Lemmas/C12Exist.lean: bsPsTheta / bsPsPhi /
+# mziPhiA / mziPhiB) and the comparison of the optimiser's solution with them modulo the periods
+# ------------------------------------------------------------------------------------------------
+import cmath  # noqa: E402
+
+
+def closed_form(block, a, b):
+    """parameters (in `get_parameters()` order) nulling cU_inv[0,0]·a + cU_inv[0,1]·b — `bsPs_exists_nulling_parameters`,
+    `mzi_exists_nulling_parameters`; `cmath.phase` is `Complex.arg` (0 at 0, principal value)"""
+    if block == "bs_ps":
+        th = math.pi if b == 0 else 2 * math.atan(abs(a) / abs(b))
+        return [th, cmath.phase(a) - cmath.phase(b) - math.pi / 2]
+    if block == "mzi_last":
+        pa = math.pi if a == 0 else 2 * math.atan(abs(b) / abs(a))
+        return [pa, cmath.phase(b) - cmath.phase(a)]
+    raise ValueError(block)
+
+
+def circle_dist(x):
+    """distance of the angle x from 0 modulo 2pi"""
+    d = x % (2 * math.pi)
+    return min(d, 2 * math.pi - d)
+
+
+def compare_with_closed_form(block, vals, a, b, prec):
+    """`vals` = parameters the optimiser returned for the cell with entries (a, b).  The equation is homogeneous: its
+    solution set is  {first ≡ ±first0 (mod 2pi), second ≡ second0 (+pi with the minus sign) (mod 2pi)}  with
+    (first0, second0) the closed form.  |equation| <= precision confines the optimiser's point to a neighbourhood of
+    that set whose size is computed here (no free tolerance):  r·|sin((first' - first0)/2)| <= |eq|  and
+    w·|sin(second' - second0)| <= |eq|  with r = |(a, b)| and w the modulus of the summand the second parameter turns.
+    -> None (agrees), a text (disagrees) or "skip" (the cell does not determine the parameters at this precision)"""
+    if any(v is None for v in vals) or len(vals) != 2:
+        return "skip"
+    r = math.hypot(abs(a), abs(b))
+    if r < 100 * prec:
+        return "skip"
+    first0, second0 = closed_form(block, a, b)
+    t = float(vals[0]) % (2 * math.pi)
+    second = float(vals[1])
+    if t > math.pi:
+        t = 2 * math.pi - t
+        second += math.pi
+    tol1 = 2 * math.asin(min(1.0, 1.001 * prec / r)) + 1e-9
+    if abs(t - first0) > tol1:
+        return (f"first parameter {vals[0]:.9g} (reduced {t:.9g}) differs from the closed form {first0:.9g} by "
+                f"{abs(t - first0):.3g} > {tol1:.3g}")
+    # modulus of the term multiplied by e^{-i·second}: cos(first'/2)·|a| for BS//PS, cos(first'/2)·|b| for the MZI
+    w = math.cos(t / 2) * (abs(a) if block == "bs_ps" else abs(b))
+    if w < 4 * prec:
+        return None          # the phase is not determined (one of the two entries vanishes to the precision)
+    tol2 = math.asin(min(1.0, 1.001 * prec / w)) + 1e-9
+    if circle_dist(second - second0) > tol2:
+        return (f"second parameter {vals[1]:.9g} differs from the closed form {second0:.9g} by "
+                f"{circle_dist(second - second0):.3g} > {tol2:.3g} (modulo 2pi, after the sign reduction of the first)")
+    return None
+
+
+def judge_cells(chk, obs, rep, items, M_np, U):
+    """What the replay's ghost recording (`trace`) says about every cell, against the real result:
+    target 1 — the parameters the optimiser found in a solved cell against the closed form of the existence theorems;
+    target 2 — the hypotheses and the conclusions of `residue_bound` / `decomposition_error_bound` on this instance."""
+    spec = obs["spec"]
+    n = spec["n"]
+    prec = spec.get("precision", 1e-6)
+    cells = rep.get("cells")
+    if cells is None:
+        return ("broken", "lean-fold", "the model's reply carries no cell recording")
+    if not rep.get("lower"):
+        return ("broken", "lean-invariant", "the model's final u is not lower triangular (final_u_lower_triangular)")
+    zs = [math.sqrt(float(core.unrat(c[5]))) for c in cells]
+    solved = [c for c in cells if c[2]]
+    blocks = [it for it in reversed(items) if it["k"] == "block"]          # the order the loop consumed them
+    if len(solved) != len(blocks):
+        return ("broken", "bookkeeping-structure", f"{len(solved)} solved cells in the replay, {len(blocks)} blocks")
+    worst = max(zs, default=0.0)
+    chk.extra["max_cell_residue_over_precision"] = max(chk.extra.get("max_cell_residue_over_precision", 0.0),
+                                                       worst / prec)
+    if worst > prec * (1 + 2e-6) + 1e-13:
+        k = zs.index(worst)
+        return ("broken", "cell-residue-above-precision",
+                f"cell (j={cells[k][0]}, n={cells[k][1]}): the entry overwritten by u[n,j] = 0 has modulus {worst:.6g} > "
+                f"precision = {prec:.3g} (hypothesis of residue_bound: the acceptance test of solve / the threshold test)")
+    delta = sum(zs)
+    resid = math.sqrt(float(core.unrat(rep["resid2"])))
+    if resid > delta * (1 + 1e-9) + 1e-13:
+        return ("broken", "lean-invariant", f"residue_bound fails on the replay: ||U - Q·u||_F = {resid:.6g} > "
+                                            f"sum of overwritten moduli = {delta:.6g}")
+    D = [unc(z) for z in rep["D"]]
+    udiag = math.sqrt(float(core.unrat(rep["offF2"])) + sum((abs(d) - 1) ** 2 for d in D))
+    lemma = (math.sqrt(max(n - 1, 0)) + 1) * delta + n * delta * delta
+    if udiag > lemma + 1e-9:
+        return ("broken", "lean-invariant", f"lower_triangular_near_unitary_near_diagonal fails on the replay: "
+                                            f"||u - diag(phases)||_F = {udiag:.6g} > {lemma:.6g}")
+    v, h = bool(spec.get("v")), bool(spec.get("h"))
+    if spec.get("phase") and not (v or h):
+        F = float(np.linalg.norm(M_np - U))
+        bound = resid + udiag + 1e-9
+        chk.branch("bound-compared")
+        chk.extra["max_frobenius_error_over_bound"] = max(chk.extra.get("max_frobenius_error_over_bound", 0.0),
+                                                          F / max(tol_of(spec), 1e-300))
+        if F > bound:
+            return ("broken", "error-above-instance-bound",
+                    f"||U - circuit||_F = {F:.6g} exceeds ||U - Q·u||_F + ||u - diag(phases)||_F = {bound:.6g} computed by "
+                    f"the model from the same blocks (decomposition_error_bound, before its last inequality)")
+    # --- target 1: the optimiser's parameters against the closed form -------------------------------------------
+    if spec["block"] in UNIVERSAL and not (v or h) and len(obs.get("free", [])) == 2:
+        for c, it in zip(solved, blocks):
+            a, b = unc(c[3]), unc(c[4])
+            vals = block_values(it, obs["free"])
+            r = compare_with_closed_form(spec["block"], vals, a, b, prec)
+            if r == "skip":
+                chk.count("closed_form", "skipped (cell does not determine the parameters)")
+                continue
+            hit(chk, obs, "closed-form-compared:" + spec["block"])
+            if r is not None:
+                return ("broken", "optimiser-not-closed-form",
+                        f"cell (j={c[0]}, n={c[1]}) with a = {a:.6g}, b = {b:.6g}: {r} [block {spec['block']} at mode "
+                        f"{it['off']}]")
+    return None
+
+
+# ------------------------------------------------------------------------------------------------
+# the block family and the equation: `Model/C12Block.lean` against the real blocks
+# ------------------------------------------------------------------------------------------------
+def rat_unit(rng):
+    """a point of the unit circle with rational coordinates (Fractions), occasionally on an axis"""
+    if rng.random() < 0.15:
+        return rng.choice([(Fraction(1), Fraction(0)), (Fraction(0), Fraction(1)), (Fraction(-1), Fraction(0)),
+                           (Fraction(0), Fraction(-1))])
+    return core.rational_cs(rng)
+
+
+def gen_block_case(rng):
+    blk = rng.choice(UNIVERSAL)
+    kind = rng.choice(["rational", "rational", "closed", "closed", "closed-axis"])
+    def z():
+        return (Fraction(rng.randint(-12, 12), 8), Fraction(rng.randint(-12, 12), 8))
+    a, b = z(), z()
+    if kind == "closed-axis":          # the branches `b = 0` / `a = 0` of the closed form, and real / imaginary entries
+        which = rng.choice(["a0", "b0", "real", "imag", "both0"])
+        if which in ("a0", "both0"):
+            a = (Fraction(0), Fraction(0))
+        if which in ("b0", "both0"):
+            b = (Fraction(0), Fraction(0))
+        if which == "real":
+            a, b = (a[0], Fraction(0)), (b[0], Fraction(0))
+        if which == "imag":
+            a, b = (Fraction(0), a[1]), (Fraction(0), b[1])
+    cse = {"block": blk, "kind": kind, "a": [str(x) for x in a], "b": [str(x) for x in b]}
+    if kind == "rational":
+        if blk == "bs_ps":
+            c, s_ = rat_unit(rng)
+            p = rat_unit(rng)
+            cse.update(c=str(c), s=str(s_), p=[str(p[0]), str(p[1])])
+        else:
+            ea, eb = rat_unit(rng), rat_unit(rng)
+            cse.update(ea=[str(ea[0]), str(ea[1])], eb=[str(eb[0]), str(eb[1])])
+    return cse
+
+
+def block_case_params(cse):
+    """the real parameter values of a block case"""
+    fz = lambda pr: complex(float(Fraction(pr[0])), float(Fraction(pr[1])))
+    if cse["kind"] == "rational":
+        if cse["block"] == "bs_ps":
+            p = fz(cse["p"])
+            return [2 * math.atan2(float(Fraction(cse["s"])), float(Fraction(cse["c"]))), math.atan2(p.imag, p.real)]
+        ea, eb = fz(cse["ea"]), fz(cse["eb"])
+        return [math.atan2(ea.imag, ea.real), math.atan2(eb.imag, eb.real)]
+    return closed_form(cse["block"], fz(cse["a"]), fz(cse["b"]))
+
+
+def observe_blocks(cases):
+    """REAL code: the block's own compute_unitary at the parameter values, and the first row of `component.U.inv()`
+    (simplified, lambdified exactly as decompose_triangle builds its equation) — plain data out."""
+    import warnings
+    warnings.filterwarnings("ignore")
+    import sympy as sp
+    import scipy as scp
+    row_fn = {}
+    outs = []
+    for cse in cases:
+        try:
+            name = cse["block"]
+            if name not in row_fn:
+                comp = make_block(name)
+                params = comp.get_parameters()
+                syms = [x.spv for x in params]
+                cU_inv = comp.U.inv()
+                cU_inv.simplify()
+                row_fn[name] = (sp.lambdify([syms], [cU_inv[0, 0], cU_inv[0, 1]], modules=[np, scp]),
+                                [(bool(x.is_periodic), x.bounds) for x in params])
+            f, pinfo = row_fn[name]
+            vals = block_case_params(cse)
+            row = [complex(z) for z in f(vals)]
+            outs.append({"vals": vals, "U": _rows(block_unitary(name, vals)),
+                         "row": [(z.real, z.imag) for z in row],
+                         "bounds_passed": [(not per and bnd or None) is not None for per, bnd in pinfo]})
+        except Exception as e:
+            outs.append({"exc": type(e).__name__, "msg": str(e)[:200]})
+    return outs
+
+
+def judge_block(chk, cse, out):
+    if "exc" in out:
+        return ("broken", "block-raises-" + out["exc"], f"evaluating the block raised {out['exc']}: {out.get('msg')}")
+    fz = lambda pr: complex(float(Fraction(pr[0])), float(Fraction(pr[1])))
+    a, b = fz(cse["a"]), fz(cse["b"])
+    row = [complex(*z) for z in out["row"]]
+    eq_code = row[0] * a + row[1] * b
+    if any(out["bounds_passed"]):
+        return ("broken", "universal-block-bounded",
+                f"a parameter of {cse['block']} is not periodic: decompose_triangle would pass bounds to the minimiser "
+                f"(the existence theorems assume every real value is admissible)")
+    if cse["kind"] != "rational":
+        # the existence theorems evaluated on the real block: the closed form nulls the real equation
+        chk.branch("closed-form-root:" + cse["block"])
+        scale = abs(a) + abs(b)
+        if abs(eq_code) > 1e-12 * scale + 1e-300:
+            return ("broken", "closed-form-not-a-root",
+                    f"{cse['block']}: cU_inv[0,0]·a + cU_inv[0,1]·b = {abs(eq_code):.3g} at the closed-form parameters "
+                    f"{out['vals']} for a = {a}, b = {b} (bsPs/mzi_exists_nulling_parameters say 0)")
+        return None
+    req = {"op": "blockmat", "block": cse["block"], "a": cse["a"], "b": cse["b"]}
+    for k in ("c", "s", "p", "ea", "eb"):
+        if k in cse:
+            req[k] = cse[k]
+    rep = chk.lean.ask(req)
+    if "err" in rep:
+        return ("broken", "lean-blockmat", f"model rejected the request: {rep['err']}")
+    chk.branch("blockmat:" + cse["block"])
+    if not rep["unit"] or rep.get("closed_form_agrees") is False:
+        return ("broken", "lean-invariant", "the model's block and inverse do not multiply to 1 / closed form differs")
+    M = np.array([[unc(z) for z in r] for r in rep["M"]], dtype=complex)
+    Minv = np.array([[unc(z) for z in r] for r in rep["Minv"]], dtype=complex)
+    if np.max(np.abs(M - cm(out["U"]))) > 1e-9:
+        return ("broken", "block-matrix",
+                f"{cse['block']} at {out['vals']}: compute_unitary differs from the model's matrix by "
+                f"{np.max(np.abs(M - cm(out['U']))):.3g}")
+    if max(abs(Minv[0, 0] - row[0]), abs(Minv[0, 1] - row[1])) > 1e-9:
+        return ("broken", "block-inverse-row",
+                f"{cse['block']} at {out['vals']}: first row of component.U.inv() is {row}, the model's is "
+                f"{[Minv[0, 0], Minv[0, 1]]}")
+    if abs(unc(rep["eq"]) - eq_code) > 1e-9 * (1 + abs(eq_code)):
+        return ("broken", "block-equation", f"{cse['block']}: equation value {eq_code} vs model {unc(rep['eq'])}")
+    return None
+
+
+def handle_block(chk, cse, out):
+    r = judge_block(chk, cse, out)
+    if r is not None:
+        kind, sig, what = r
+        chk.count("failures", sig)
+        chk.fail(kind, sig, what, {"block_case": cse})
+
+
+# ------------------------------------------------------------------------------------------------
+# the glue of Circuit.decomposition around decompose_triangle: which exception / None / circuit (Model/C12Glue.lean)
+# ------------------------------------------------------------------------------------------------
+GLUE_SHAPES = ["triangle", "TRIANGLE", "Triangle", "rectangle", "RECTANGLE", "hexagon", "", "enum:TRIANGLE",
+               "enum:RECTANGLE", "none", "int"]
+
+
+def gen_glue_case(rng):
+    n = rng.choice([2, 2, 3])
+    blk = rng.choice(["bs_ps", "bs_ps", "mzi_last", "bs", "bs_fixed"])
+    k = NFREE[blk]
+    good = [None] * k
+    cons = rng.choice(["none", "none", "good", "good2", "empty", "wronglen", "shorter", "longer", "tuple-of-tuples", "entry-int",
+                       "entry-str", "tuple-entry", "bad-after-good"])
+    shape = rng.choice(GLUE_SHAPES) if rng.random() < 0.45 else rng.choice(["triangle", "TRIANGLE", "enum:TRIANGLE"])
+    if rng.random() < 0.5:
+        cons = rng.choice(["none", "good", "good2", "tuple-entry"])
+    return {"n": n, "block": blk, "seed": rng.randrange(1, 2 ** 30), "shape": shape,
+            "kind": rng.choice(["haar", "haar", "identity", "perm", "sparse"]),
+            "nonunitary": rng.random() < 0.12, "cons": cons, "max_try": rng.choice([0, 1, 2, 3, 3, 10, -1]),
+            "allow_error": rng.random() < 0.3, "phase": rng.random() < 0.5}
+
+
+def glue_constraints(cse):
+    """-> (python object handed to the code, description for the model)"""
+    k = NFREE[cse["block"]]
+    free = [None] * k
+    c = cse["cons"]
+    if c == "none":
+        return None, None
+    if c == "good":
+        return [tuple(free)], [k]
+    if c == "good2":
+        return [list(free), tuple(free)], [k, k]
+    if c == "empty":
+        return [], []
+    if c == "wronglen":
+        return [tuple(free) + (None,)], [k + 1]
+    if c == "shorter":          # one component missing (a block without free parameter cannot have fewer: k + 1 then)
+        m = k - 1 if k else k + 1
+        return [tuple(free), (None,) * m], [k, m]
+    if c == "longer":
+        return [tuple(free), (None,) * (k + 2)], [k, k + 2]
+    if c == "tuple-of-tuples":
+        return (tuple(free),), "notlist"
+    if c == "entry-int":
+        return [5], [-1]
+    if c == "entry-str":          # a str has a length but is neither a list nor a tuple
+        return ["x" * k], [-1]
+    if c == "tuple-entry":
+        return [tuple(free)], [k]
+    if c == "bad-after-good":
+        return [tuple(free), 7], [k, -1]
+    raise ValueError(c)
+
+
+def observe_glue(cse):
+    import warnings
+    warnings.filterwarnings("ignore")
+    import perceval as pcvl
+    from perceval.components import PS, Circuit
+    from perceval.utils import InterferometerShape
+    out = {}
+    block = make_block(cse["block"])
+    u0 = make_matrix(cse["kind"], cse["n"], cse["seed"])
+    if cse["nonunitary"]:
+        u0 = u0.copy()
+        u0[0, 0] += 0.25
+    sh = cse["shape"]
+    shape = {"enum:TRIANGLE": InterferometerShape.TRIANGLE, "enum:RECTANGLE": InterferometerShape.RECTANGLE,
+             "none": None, "int": 1}.get(sh, sh)
+    cons, _ = glue_constraints(cse)
+    kw = {"shape": shape, "max_try": cse["max_try"], "allow_error": cse["allow_error"]}
+    if cons is not None:
+        kw["constraints"] = cons
+    if cse["phase"]:
+        kw["phase_shifter_fn"] = PS
+    pcvl.random_seed(cse["seed"])
+    out["nparams"] = len(block.get_parameters())
+    with _AttemptLog() as al:
+        try:
+            c = Circuit.decomposition(pcvl.Matrix(u0), block, **kw)
+            out["result"] = "None" if c is None else "circuit"
+        except Exception as e:
+            out["result"] = type(e).__name__
+            out["msg"] = str(e)[:160]
+    out["attempts"] = None if al.log is None else [bool(a["ok"]) for a in al.log]
+    out["calls"] = None if al.log is None else [int(a["calls"]) for a in al.log]
+    out["solved"] = None if al.log is None else [int(a["solved"]) for a in al.log]
+    return out
+
+
+def judge_glue(chk, cse, out):
+    sh = cse["shape"]
+    if sh.startswith("enum:"):
+        shape = {"obj": sh[5:].lower()}
+    elif sh in ("none", "int"):
+        shape = {"obj": "foreign"}
+    else:
+        up = sh.upper()
+        shape = {"str": up.lower() if up in ("TRIANGLE", "RECTANGLE") else None}
+    _, cdesc = glue_constraints(cse)
+    att = out.get("attempts")
+    if att is None:
+        return None          # the observation hooks could not be installed: reported by the required branches
+    rep = chk.lean.ask({"op": "glue", "shape": shape, "unitary": not cse["nonunitary"], "symbolic": False,
+                        "constraints": cdesc, "nparams": out["nparams"], "max_try": cse["max_try"], "attempts": att})
+    if "err" in rep:
+        return ("broken", "lean-glue", f"model rejected the request: {rep['err']}")
+    chk.branch("glue:" + rep["outcome"])
+    chk.count("glue", f"{rep['outcome']}")
+    got = out["result"]
+    if got != rep["outcome"]:
+        return ("broken", "decomposition-control-flow",
+                f"Circuit.decomposition(shape={sh!r}, constraints={cse['cons']}, max_try={cse['max_try']}, "
+                f"unitary={not cse['nonunitary']}) gave {got} ({out.get('msg', '')}); the model of its control flow says "
+                f"{rep['outcome']} (attempts observed: {att})")
+    if got == "circuit" and rep.get("k") != len(att) - 1:
+        return ("broken", "decomposition-control-flow", f"circuit returned by attempt {len(att) - 1}, model says {rep.get('k')}")
+    if got == "None" and len(att) != max(cse["max_try"], 0) and shape in ({"str": "triangle"}, {"obj": "triangle"}):
+        return ("broken", "gave-up-before-max-try", f"None after {len(att)} attempts, max_try = {cse['max_try']}")
+    if got in ("ValueError", "AssertionError", "NotImplementedError") and att:
+        return ("broken", "decomposition-control-flow", f"{got} raised after {len(att)} attempt(s) had been started")
+    # allow_error=True: solve never answers None (solve_allow_error_isSome), so every started attempt succeeds — unless
+    # the list of constraints is empty (no call of solve at all)
+    if cse["allow_error"] and att and cse["cons"] != "empty":
+        chk.branch("glue:allow-error")
+        if not all(att) or any(c != s_ for c, s_ in zip(out["calls"], out["solved"])):
+            return ("broken", "allow-error-returns-none",
+                    f"with allow_error=True an attempt was abandoned / a call of solve answered None: attempts {att}, "
+                    f"solve calls {out['calls']}, accepted {out['solved']}")
+    if cse["cons"] == "empty" and att:
+        chk.branch("glue:empty-constraint-list")
+    if cse["max_try"] <= 0 and got == "None":
+        chk.branch("glue:max-try-zero")
+    return None
+
+
+def handle_glue(chk, cse, out):
+    r = judge_glue(chk, cse, out)
+    if r is not None:
+        kind, sig, what = r
+        chk.count("failures", sig)
+        chk.fail(kind, sig, what, {"glue_case": cse})
 
 
 def judge_attempts(chk, obs, U):
@@ -813,6 +1238,9 @@ def judge(chk, obs):
     err = math.sqrt(float(core.unrat(rep["err2"])))
     if off > tol or err > tol:
         return ("broken", "residue", f"final u off-diagonal {off:.3g} / overwritten-entry term {err:.3g} exceed {tol:.3g}")
+    r = judge_cells(chk, obs, rep, items, M_np, U)
+    if r is not None:
+        return r
     chk.count("nskip", rep["nskip"])
     if rep["nskip"]:
         chk.branch("identity-skip")
@@ -891,6 +1319,10 @@ def gen_spec(rng, max_n, i):
         spec["merge"] = rng.choice([True, False])
     if rng.random() < 0.15:
         spec["precision"] = rng.choice([1e-7, 1e-5])
+    if rng.random() < 0.07 and spec["block"] not in ("bs", "mzi_first", "bsH_phibl"):
+        spec["precision"] = 1e-7
+        spec["kind"] = "dust7"
+        spec["n"] = max(spec["n"], 3)
     if rng.random() < 0.15 and spec["block"] not in ("bs",):
         # restrictive first, unrestricted fallback (a constraint has one entry per free parameter: 2 here)
         spec["constraints"] = rng.choice([[[None, 0], [None, None]], [[math.pi, None], [None, None]],
@@ -1139,6 +1571,10 @@ def handle(chk, obs, pool_observe=observe, do_shrink=True):
         chk.branch("block-bounded-nonperiodic")
     if small_entry_above_tolerance(spec):
         hit(chk, obs, "small-entry-above-tolerance" + ("" if "flat" in obs else "-nocircuit"))
+    if spec.get("precision") == 1e-7 and not spec.get("malformed") and "flat" in obs:
+        up = pre_processed(spec, spec_matrix(spec))
+        if any(1.5e-7 < abs(up[i, j]) < 9.5e-7 for j in range(spec["n"]) for i in range(j)):
+            hit(chk, obs, "entry-between-requested-and-default-precision")
     if spec["kind"] == "mesh":
         chk.count("mesh", ("circuit" if "flat" in obs else "none" if obs.get("none") else "exc") + ":" +
                   spec.get("scenario", "?"))
@@ -1327,13 +1763,23 @@ def run(chk: core.Check):
                 "fallbacks, on Haar matrices and on meshes of the block at the imposed values) × precision × blocks with a bounded "
                 "non-periodic parameter and max_try 8..16 (retry loop) × reuse of the block / Matrix object); distinct = "
                 "distinct option signatures; non-trivial = a circuit was returned for n ≥ 3; plus direct calls of "
-                "solve.py: solve compared with its Lean model (extra.solve_cases)")
+                "solve.py: solve compared with its Lean model (extra.solve_cases); plus the two universal blocks at rational "
+                "points of the unit circle (compute_unitary and the first row of component.U.inv() against "
+                "Model/C12Block.lean, exactly) and at the closed-form parameters of the existence theorems for random and "
+                "axis-aligned (a, b) (extra.block_cases); plus requests exercising the glue of Circuit.decomposition (shape "
+                "strings / enum members / foreign objects × non-unitary input × constraints of every malformed kind × "
+                "max_try <= 0 × allow_error) whose outcome (exception class / None / circuit and the attempt it came from) "
+                "is compared with Model/C12Glue.lean (extra.glue_cases)")
     chk.assumptions = [
         "block matrices and the phase shifters' matrices are taken from each leaf's own compute_unitary() (C14)",
         "allow_error=True is not exercised (it voids the precision guarantee by design)",
         "existence (a circuit is found within max_try=10) is claimed only for catalog['mzi phase last'] and "
         "BS(theta)//PS(phi) with an unrestricted constraint; it is validated by sampling, not proved",
-        "tolerance precision·4·(#cells+1): every cell leaves a residue ≤ precision (see tol_of)",
+        "tolerance of the direct oracle = the proved bound (sqrt(n-1)+2)·N·precision + n·(N·precision)² + 1e-9 "
+        "(decomposition_error_bound_precision; N = n(n-1)/2); its hypotheses (unitary blocks, every overwritten entry "
+        "<= precision) are re-evaluated on every returned circuit by the model's replay",
+        "existence theorems are over the reals/complex numbers (exact arithmetic): that scipy's minimiser FINDS the root "
+        "is validated by sampling only",
         "the numerical minimiser inside solve is an oracle of the solve model (its observed result is replayed); "
         "res.fun is taken to be f(res.x)",
         "blocks with a bounded non-periodic parameter (used to make single attempts of the retry loop fail) are combined "
@@ -1362,7 +1808,19 @@ def run(chk: core.Check):
                              "block-reused/generated",
                              # solve.py itself against its Lean model
                              "solve-all-imposed-accept", "solve-all-imposed-reject", "solve-no-parameter",
-                             "solve-partial", "solve-free"]
+                             "solve-partial", "solve-free",
+                             # the existence clause: the block family and the equation against the Lean model, the closed
+                             # form as a root of the real equation, the optimiser's parameters against the closed form
+                             "blockmat:bs_ps", "blockmat:mzi_last", "closed-form-root:bs_ps", "closed-form-root:mzi_last",
+                             "closed-form-compared:bs_ps", "closed-form-compared:mzi_last",
+                             "closed-form-compared:bs_ps/generated", "closed-form-compared:mzi_last/generated",
+                             # the perturbation bound evaluated on the instance
+                             "bound-compared",
+                             # the glue of Circuit.decomposition: every outcome of its control flow
+                             "glue:ValueError", "glue:AssertionError", "glue:NotImplementedError", "glue:None",
+                             "glue:circuit", "glue:allow-error", "glue:max-try-zero",
+                             # a requested precision below the default one, with entries between the two
+                             "entry-between-requested-and-default-precision/generated"]
     chk.lean = core.LeanDriver("C12")
     rng = chk.rng
     n_cases = chk.pick(200, 1500)
@@ -1384,6 +1842,10 @@ def run(chk: core.Check):
         solve_cases = [gen_solve_case(rng) for _ in range(chk.pick(150, 1500))]
         nchunk = 10
         solve_pending = [pool.apply_async(observe_solve, (solve_cases[c::nchunk],)) for c in range(nchunk)]
+        block_cases = [gen_block_case(rng) for _ in range(chk.pick(120, 1200))]
+        block_pending = [pool.apply_async(observe_blocks, (block_cases[c::4],)) for c in range(4)]
+        glue_cases = [gen_glue_case(rng) for _ in range(chk.pick(120, 800))]
+        glue_pending = [pool.apply_async(observe_glue, (g,)) for g in glue_cases]
         for i in range(len(specs)):
             obs = pending.pop(i).get()
             if i < ncorpus:
@@ -1397,6 +1859,13 @@ def run(chk: core.Check):
             for cse, out in zip(solve_cases[c::nchunk], solve_pending[c].get()):
                 handle_solve(chk, cse, out)
         chk.extra["solve_cases"] = len(solve_cases)
+        for c in range(4):
+            for cse, out in zip(block_cases[c::4], block_pending[c].get()):
+                handle_block(chk, cse, out)
+        chk.extra["block_cases"] = len(block_cases)
+        for g, pend in zip(glue_cases, glue_pending):
+            handle_glue(chk, g, pend.get())
+        chk.extra["glue_cases"] = len(glue_cases)
     chk.extra["decomposition_cpu_s"] = round(tsum, 1)
     chk.extra["pool_wall_s"] = round(time.time() - t0, 1)
     chk.extra["corpus_cases"] = ncorpus
@@ -1405,6 +1874,14 @@ def run(chk: core.Check):
 def replay(chk, data):
     chk.lean = core.LeanDriver("C12")
     chk.rule = "replay of one stored configuration"
+    if "glue_case" in data["replay"]:
+        cse = data["replay"]["glue_case"]
+        handle_glue(chk, cse, observe_glue(cse))
+        return
+    if "block_case" in data["replay"]:
+        cse = data["replay"]["block_case"]
+        handle_block(chk, cse, observe_blocks([cse])[0])
+        return
     if "solve_case" in data["replay"]:
         cse = data["replay"]["solve_case"]
         handle_solve(chk, cse, observe_solve([cse])[0])
